@@ -30,7 +30,7 @@ pub fn families() -> Vec<Family> {
             "one logical message (all header fields over boundary classes, payloads 0..64 KiB, body capacity below/equal/above the in-place threshold) emitted by to_vec / write_to / into_wire_bytes / write_message / write_message_streaming / typed+complex slice writers / write_message_async through short-write, EINTR and Pending sinks, and read back through 1-byte / interrupted sources, vs. the independent layout oracle; interop fixtures re-emitted",
             c01_routes,
         )
-        .runs(20_000, 1_000_000)
+        .runs(80_000, 4_800_000)
         .tokio(),
         Family::new(
             "c01_wire",
@@ -38,7 +38,7 @@ pub fn families() -> Vec<Family> {
             "frames real endpoints put on the simulated wire: AsyncClient::forward_message requests (arbitrary ids, format codes, notify) and blocking Server / AsyncServer responses whose fields a handler chose, tapped and compared with the oracle encoding",
             c01_wire,
         )
-        .runs(2_000, 80_000)
+        .runs(1_500, 90_000)
         .steps(600_000)
         .tokio(),
     ]
